@@ -22,3 +22,7 @@ func TestVerifC02Decorator(t *testing.T) {
 func TestVerifC03Decorator(t *testing.T) {
 	vs.Run(t, "C03", func(c *vs.Case) error { return vw.PropC03(c, decoratorFactory, "decorator") })
 }
+
+func TestVerifC10Decorator(t *testing.T) {
+	vs.Run(t, "C10", func(c *vs.Case) error { return vw.PropC10(c, decoratorFactory, "decorator") })
+}
